@@ -182,10 +182,21 @@ def check(run, prog, tier):
 
     # ---- C12-c
     setters, clearers, readers = set(), set(), set()
+    TURN_BIT = None
+    for f in prog.functions():
+        for b, i, n in f.nodes():
+            if n.get("k") == "Asg" and n.get("op") == "&=" and strip(n["L"]).get("f") == "iflags" and mentions(n["R"], "HAS_CMD_TURN") and const_val(n["R"]) is not None and const_val(n["R"]) < 0:
+                v = ~const_val(n["R"]) & 0xFFFFFFFF
+                if v and v & (v - 1) == 0:
+                    TURN_BIT = v
     for f in prog.functions():
         for b, i, e in f.elements():
             for n in walk(e, True):
-                if n.get("k") == "Asg" and mentions(n["R"], "HAS_CMD_TURN"):
+                if n.get("k") == "Asg" and n.get("op") == "&=" and const_val(n["R"]) is not None and const_val(n["R"]) >= 0 and strip(n["L"]).get("f") == "iflags":
+                    # a keep-mask: clears the bit exactly when it does not list it
+                    if TURN_BIT is not None and not (const_val(n["R"]) & TURN_BIT):
+                        clearers.add(f.name)
+                elif n.get("k") == "Asg" and mentions(n["R"], "HAS_CMD_TURN"):
                     (setters if n.get("op") == "|=" else clearers).add(f.name)
                 elif n.get("k") == "Bin" and n.get("op") == "&" and mentions(n["R"], "HAS_CMD_TURN") and "~" not in show(n["R"]):
                     readers.add(f.name)
@@ -283,8 +294,23 @@ def check(run, prog, tier):
     # ---- C12-f a complete buffered command is never un-announced
     run.rule("C12-f", "CMD_IN_BUF is cleared only on the word of the buffer scan: every store that removes the bit is on the no-command edge of cmd_in_buf()/first_cmd_in_buf(); otherwise a user whose complete line is still buffered is skipped every cycle until new data arrives", 2)
     ncl = 0
+    # the value of the bit, read off a store that clears it by name (`&= ~CMD_IN_BUF`)
+    CMD_BIT = None
+    for f in prog.functions():
+        for b, i, n in f.nodes():
+            if n.get("k") == "Asg" and n.get("op") == "&=" and strip(n["L"]).get("f") == "iflags" and mentions(n["R"], "CMD_IN_BUF") and const_val(n["R"]) is not None and const_val(n["R"]) < 0:
+                v = ~const_val(n["R"]) & 0xFFFFFFFF
+                if v and v & (v - 1) == 0:
+                    CMD_BIT = v
     for f in sorted(prog.functions(), key=lambda x: (x.file, x.line)):
-        clears = [(b, i, n) for b, i, n in f.nodes() if n.get("k") == "Asg" and n.get("op") == "&=" and mentions(n["R"], "CMD_IN_BUF") and strip(n["L"]).get("f") == "iflags"]
+        clears = [(b, i, n) for b, i, n in f.nodes() if n.get("k") == "Asg" and n.get("op") == "&=" and mentions(n["R"], "CMD_IN_BUF") and strip(n["L"]).get("f") == "iflags"
+                  and not (const_val(n["R"]) is not None and CMD_BIT is not None and (const_val(n["R"]) & CMD_BIT))]
+        # ... and a keep-mask that does not list the bit clears it just the same (`iflags &= (A | B | C)`)
+        clears += [(b, i, n) for b, i, n in f.nodes() if n.get("k") == "Asg" and n.get("op") == "&=" and strip(n["L"]).get("f") == "iflags" and not mentions(n["R"], "CMD_IN_BUF")
+                   and const_val(n["R"]) is not None and const_val(n["R"]) >= 0 and CMD_BIT is not None and not (const_val(n["R"]) & CMD_BIT)]
+        clears += [(b, i, n) for b, i, n in f.nodes() if n.get("k") == "Asg" and n.get("op") == "=" and strip(n["L"]).get("f") == "iflags" and strip(n["R"]).get("k") == "Bin" and strip(n["R"]).get("op") == "&"
+                   and any(y.get("k") == "Mem" and y.get("f") == "iflags" for y in walk(n["R"])) and CMD_BIT is not None
+                   and any(const_val(z) is not None and const_val(z) >= 0 and not (const_val(z) & CMD_BIT) for z in (strip(n["R"])["L"], strip(n["R"])["R"]))]
         for j, (b, i, n) in enumerate(sorted(clears, key=lambda x: x[2].get("l") or 0)):
             ncl += 1
             run.saw(f)
